@@ -75,7 +75,8 @@ class ConditionalLossMoment(LossMoment):
 
     def gamma(self, predictor: Callable) -> pd.Series:
         """Calculate the degree to which constraints are currently violated by the predictor."""
-        self.tags[_PREDICTION] = predictor(self.X)
+        # Rows are paired by position: drop any index labels the predictor's output carries
+        self.tags[_PREDICTION] = np.asarray(predictor(self.X))
         self.tags[_LOSS] = self.reduction_loss.eval(self.tags[_LABEL], self.tags[_PREDICTION])
         expect_attr = self.tags.groupby(_GROUP_ID).mean()
         self._gamma_descr = str(expect_attr[[_LOSS]])
